@@ -134,6 +134,10 @@ func project(v interface{}) (M, error) {
 		return projSlice(reflect.ValueOf(x))
 	}
 	rv := reflect.ValueOf(v)
+	if rv.Kind() == reflect.Struct && reflect.PtrTo(rv.Type()).Implements(typeCallable) {
+		// a function value held by value rather than by pointer (jtypes.IsCallable accepts both)
+		return M{"t": "fn"}, nil
+	}
 	switch rv.Kind() {
 	case reflect.Bool:
 		return M{"t": "bool", "b": rv.Bool()}, nil
